@@ -871,7 +871,7 @@ example : (Sp.wrapper 9 (Sp.compound 0 [.real 1 2, .wrapper 2 (.so3 3),
   simp [Sp.ok, Sp.okIn, Sp.okInL, Sp.isComp]
 
 /-- without `Sp.ok` the enumeration fails: a wrapped compound used as a component contributes no value
-locations (finding F-C09-c) although `getValueAddressAtIndex` reaches its `double`. -/
+locations (finding F32) although `getValueAddressAtIndex` reaches its `double`. -/
 example : (Sp.compound 0 [.wrapper 1 (.compound 2 [.real 3 1])]).ok = false ∧
     valueLocations (Sp.compound 0 [.wrapper 1 (.compound 2 [.real 3 1])]) = [] ∧
     realAddrs (Sp.compound 0 [.wrapper 1 (.compound 2 [.real 3 1])]) = [[0, 0, 0, 0]] := by
